@@ -24,6 +24,7 @@ SliceOps(n) == CASE n = "C09" -> {"Generate", "Sibling", "Regenerate", "AddNode"
               [] n = "C13" -> {"Generate", "AddNode", "Link", "Analyse", "Prune", "AttachAttackers", "Touch"}
               [] n = "C14" -> {"Generate", "Sibling", "AttachAttackers", "Analyse", "DeepCopy", "RemoveNode", "Compromise", "Touch", "AddNode", "RemoveGAttacker"}
               [] n = "C10" -> {"Generate", "Sibling", "AttachAttackers", "Analyse", "Prune", "Compromise", "Undo", "RemoveNode", "Touch", "SaveLoad"}
+              [] n = "C09L" -> {"Generate", "AddNode", "Link", "RemoveNode", "DeepCopy", "SaveLoad", "AttachAttackers"}   \* structure after copy / load
               [] n = "C10R" -> {"Generate", "AttachAttackers", "Undo", "RemoveNode", "SaveLoad"}    \* removals before saving
               [] n = "C13L" -> {"Generate", "AttachAttackers", "Undo", "Touch", "SaveLoad", "Prune"}   \* prune loaded graphs / after undo
               [] n = "C10F" -> {"Generate", "AddGAttacker", "Compromise", "SaveLoad"}
